@@ -1030,8 +1030,8 @@ func main() {
 	driver.Main(driver.Spec{
 		ID:    "C12",
 		Level: "exploration",
-		Rule: "a case is (default scheme, input string, generated provider values, root-document mode) or (list of 1-4 generated source maps with their delivery modes); strings are drawn from the token grammar " +
-			"{literal, $, $$, ${vv:k}, ${NAME}, ${env:…}, ${yaml:…}, $${…}, runs of n '$' before '{', nested, adjacent and repeated references, unterminated and malformed forms}; provider values cover every YAML type, " +
+		Rule: "a case is (default scheme, input string, generated provider values, root-document mode) or (list of 1-4 generated source maps with their delivery modes) or (one Resolver resolved 2-4 times while the provider table and an environment variable change between the resolutions, with and without a watcher event; every resolution is compared with the reference for the table current at that time and must retrieve every used uri again); strings are drawn from the token grammar " +
+			"{literal, $, $$, ${vv:k}, ${NAME}, ${env:…}, ${yaml:…}, $${…}, runs of n '$' before '{', even and odd runs of '$' inside the braces, nested, adjacent and repeated references, unterminated and malformed forms}; provider values cover every YAML type, " +
 			"values with references/escapes, cycles and '$' in the name; an expansion case is non-trivial when the string contains '$', a merge case when >= 2 sources overlap in a key; distinct = distinct input hash",
 		Assumptions: []string{
 			"the reference is the agreement of two independent interpreters (rewrite model / token model) written from docs/rfcs/env-vars.md and the statement; where they disagree (spliced text forming new syntax with its surroundings) only termination and absence of panics are demanded",
